@@ -8,7 +8,8 @@ VERIF_HOME = os.environ.get(
     os.path.dirname(os.path.dirname(os.path.dirname(os.path.abspath(__file__)))))
 REPO = os.environ.get('VERIF_REPO', '/repo')
 PYTHON = os.environ.get('VERIF_PYTHON', '/venv/bin/python')
-EVIDENCE_DIR = os.path.join(VERIF_HOME, 'evidence')
+EVIDENCE_DIR = os.environ.get('VERIF_EVIDENCE_DIR') or \
+    os.path.join(VERIF_HOME, 'evidence')
 REPLAY_DIR = os.path.join(EVIDENCE_DIR, 'replays')
 KNOWN_FINDINGS = os.path.join(VERIF_HOME, 'known_findings.json')
 NCPU = int(os.environ.get('VERIF_JOBS', os.cpu_count() or 4))
